@@ -65,6 +65,9 @@ THEOREMS = {
         ("HH.C06.hop_transparent", "checkpoint + restore on any back end: every later finalize/checkpoint equals the original's"),
         ("HH.C06.journey_abs", "any number of hops over any back ends at any cut points preserves the abstract state"),
         ("HH.C06.journey_transparent", "after any journey every later result equals the uninterrupted hasher's"),
+        ("HH.C06.journey_checkpoint", "after any journey, later checkpoints and finish equal the uninterrupted ones byte for byte"),
+        ("HH.C06.straight_abs", "the uninterrupted hasher's state is the abstract append of all leg data"),
+        ("HH.C06.journey_is_spec", "∀ back end, key, journey (cuts, back end per hop), suffix, width: digest = HighwayHash SPEC digest of all bytes"),
     ]),
     "C07": dict(module="HH.Props.C07", trusted=MODEL_TRUST + SIMD_TRUST, theorems=[
         ("HH.C07.default_eq_new", "∀ back end, default = new zeroKey"),
